@@ -30,6 +30,8 @@ def place(d):
     sub = "internal/hmac/" if "hmac" in os.path.basename(d) else ""
     return f"{wt}/{sub}zz_{os.path.basename(d)}"
 pkgs = ". ./internal/hmac" if any("hmac" in os.path.basename(d) for d in demos) else "."
+if any("debug" in os.path.basename(d) for d in demos) or any("//go:build debug" in open(d).read() for d in demos):
+    pkgs = "-tags debug " + pkgs
 for d in demos: shutil.copy(d, place(d))
 names = []
 for d in demos:
